@@ -2126,7 +2126,7 @@ func rsplit(s, sep string, max int) []string {
 
 // Precondition: max >= 0.
 func rsplitspace(s string, max int) []string {
-	res := make([]string, 0, max+1)
+	var res []string
 	end := -1 // index of field end, or -1 in a region of spaces.
 	for i := len(s); i > 0; {
 		r, sz := utf8.DecodeLastRuneInString(s[:i])
